@@ -437,6 +437,20 @@ impl<'a, T: Read + Write + Seek> PointCloudWriter<'a, T> {
                     "Type mismatch at index {i}: value type does not match prototype"
                 ))?
             }
+
+            // Ensure that integer values are inside the range declared by the prototype
+            let in_range = match (&p.data_type, value) {
+                (RecordDataType::Integer { min, max }, RecordValue::Integer(v))
+                | (RecordDataType::ScaledInteger { min, max, .. }, RecordValue::ScaledInteger(v)) => {
+                    min <= v && v <= max
+                }
+                _ => true,
+            };
+            if !in_range {
+                Error::invalid(format!(
+                    "Value out of range at index {i}: integer value is outside the minimum and maximum of the prototype"
+                ))?
+            }
         }
 
         // Go over all values to extract min/max values
